@@ -327,12 +327,20 @@ def run(ctx):
             for bi2, sc in lib.str_consts(cb):
                 if sc in ('index', 'table', 'refcount'):
                     kinds_seen.add(sc + '_')
+            cands = []
             for bi2, t2 in cb.calls():
                 if bi2 not in cb.normal_blocks() or not call_matches(t2, TESTS) or len(t2['a']) < 2:
                     continue
                 tk = lib.string_tokens(F, cb, t2['a'][1])
-                if not tk:
-                    continue
+                if tk:
+                    cands.append(tk)
+            # ... and what a predicate formats itself before it hands the string to a closure or a combinator (a helper that
+            # RETURNS the string is read where the string is used, see above)
+            if str(cb.locals[0]) != 'std::string::String':
+                for bi2, tk in lib.expanded_templates(F, cb):
+                    if tk and tk not in cands:
+                        cands.append(tk)
+            for tk in cands:
                 if tk[0][0] == 'lit' and tk[0][1] in writers:
                     kinds_seen.add(tk[0][1])
                 for i, tok in enumerate(tk):
